@@ -243,9 +243,17 @@ impl<Data> IoLoopInner for LoopInner<'_, Data> {
         // The IO object may outlive the adapter (`into_inner()`, or an adapter over a borrowed
         // fd): stop polling it, otherwise it stays in the poller for as long as it is open and
         // cannot be adapted or inserted again
-        if let Ok(poll) = self.poll.try_borrow_mut() {
-            let fd = dispatcher.borrow().fd;
-            let _ = poll.unregister(unsafe { BorrowedFd::borrow_raw(fd) });
+        let fd = unsafe { BorrowedFd::borrow_raw(dispatcher.borrow().fd) };
+        match self.poll.try_borrow_mut() {
+            Ok(poll) => {
+                let _ = poll.unregister(fd);
+            }
+            // The adapter is being dropped from inside the (un)registration of a source, which
+            // has the poll borrowed. Adapters are registered in one-shot mode: nothing but the
+            // poller itself knows about them.
+            Err(_) => {
+                let _ = self.poller.delete(fd);
+            }
         }
     }
 }
